@@ -75,8 +75,8 @@ def run(tier, seed, replay=None):
                     if exp.get(m.group(1)) != m.group(2) and not bad:
                         bad = "content %s reads %s in this packaging, inserted %s" % (m.group(1), m.group(2), exp.get(m.group(1)))
         logical = [l for l in fin if l.startswith(("index", "entry"))]
-        if not bad and logical != P.expected_std(c["n"], c["extra"], c["seed"]):
-            want = P.expected_std(c["n"], c["extra"], c["seed"])
+        if not bad and logical != P.expected_std(c["n"], c["extra"], c["seed"], c.get("idgap", 0), c.get("cmax", 0), c.get("orphans", 0)):
+            want = P.expected_std(c["n"], c["extra"], c["seed"], c.get("idgap", 0), c.get("cmax", 0), c.get("orphans", 0))
             k = next((i for i in range(max(len(want), len(logical))) if i >= len(want) or i >= len(logical) or want[i] != logical[i]), 0)
             bad = "logical content read back is not what was written: got %s, written %s" % (
                 logical[k] if k < len(logical) else "<missing>", want[k] if k < len(want) else "<missing>")
